@@ -161,7 +161,8 @@ class Schema:
             ns = '##any' if p[1] is None else ' '.join('##targetNamespace' if n == NS else n for n in p[1])
             if p[1] == ['##other']:
                 ns = '##other'
-            return f'<xs:any namespace="{ns}" processContents="lax"{self.occ_xsd(p[2])}/>'
+            pc = p[3] if len(p) > 3 else 'lax'
+            return f'<xs:any namespace="{ns}" processContents="{pc}"{self.occ_xsd(p[2])}/>'
         if p[0] == 'G':
             inner = ''.join(self.particle_xsd(q) for q in p[2])
             return f'<xs:{p[1]}{self.occ_xsd(p[3])}>{inner}</xs:{p[1]}>'
@@ -276,7 +277,8 @@ class Schema:
                 if p[0] == 'PE':
                     out += ['PE'] + self.elem_tok(p[1]) + [str(len(p[2]))] + [clark(n) for n in p[2]]
                 else:
-                    out += ['PA', '~'] if p[1] is None else ['PA', str(len(p[1]))] + [ONS if n == '##other' else n for n in p[1]]
+                    sk = '1' if (len(p) > 3 and p[3] == 'skip') else '0'
+                    out += ['PA', sk, '~'] if p[1] is None else ['PA', sk, str(len(p[1]))] + [ONS if n == '##other' else n for n in p[1]]
             ats = self.all_attrs(ct)
             out.append(str(len(ats)))
             for a in ats:
@@ -647,16 +649,18 @@ class Gen:
                               'default': None}, [], (0, 1)))
         # wildcard (last particle)
         s.wild = None
-        if r.random() < 0.5:
-            if s.version == '1.1' and r.random() < 0.6:
+        if r.random() < 0.55:
+            if s.version == '1.1' and r.random() < 0.65:
                 g = {'name': self.fresh('g'), 'ty': ('TS', self.simple_type(depth=1, allow=('atomic',))), 'global': True,
                      'nillable': False, 'default': None}
                 s.globals.append(g)
                 s.wild = ('target', g)
-                ps.append(('PA', None if r.random() < 0.5 else [NS], (0, None)))
+                # XSD 1.1: the wildcard may stand anywhere, also BEFORE element particles it overlaps with
+                ps.insert(r.randint(0, len(ps)), ('PA', None if r.random() < 0.5 else [NS], (0, 2),
+                                                  r.choice(['lax', 'lax', 'strict', 'skip'])))
             else:
                 s.wild = ('other', None)
-                ps.append(('PA', ['##other'], (0, None)))
+                ps.append(('PA', ['##other'], (0, None), r.choice(['lax', 'lax', 'skip'])))
         root_ct = self.new_ctype('ce', ps, self.attr_decls(with_defaults) if r.random() < 0.4 else [])
         s.root = {'name': 'root', 'ty': ('TC', root_ct), 'global': True, 'nillable': False, 'default': None}
         s.globals.insert(0, s.root)
@@ -703,7 +707,7 @@ class InstGen:
                         else:
                             walk(p[2])
                     continue
-                lo, hi = p[-1]
+                lo, hi = p[3] if p[0] == 'PE' else p[2]
                 n = r.randint(lo, max(lo, min(hi if hi is not None else 3, 3)))
                 if self.budget <= 0:
                     n = lo
@@ -716,10 +720,14 @@ class InstGen:
                         kids.append(self.elem(e, depth + 1))
                     else:  # wildcard
                         kind, g = self.sch.wild
-                        if kind == 'target' and r.random() < 0.7:
-                            kids.append(self.elem(g, depth + 1))
-                        elif kind == 'target' and p[1] == [NS]:
-                            kids.append(self.elem(g, depth + 1))
+                        pc = p[3] if len(p) > 3 else 'lax'
+                        if kind == 'target' and (r.random() < 0.7 or p[1] == [NS] or pc == 'strict'):
+                            node = self.elem(g, depth + 1)
+                            if pc == 'skip':
+                                node['ty'] = None         # not assessed: expected xs:untyped
+                                if r.random() < 0.5 and not any(not isinstance(k, str) for k in node['kids']):
+                                    node['kids'] = ['not even valid']
+                            kids.append(node)
                         else:
                             kids.append({'name': clark('q', ONS), 'attrs': [('z', '1')] if r.random() < 0.3 else [],
                                          'kids': [r.choice(['zz', '5'])] + ([{'name': clark('qq', ONS), 'attrs': [], 'kids': ['1'], 'xsi': None}] if r.random() < 0.3 else []),
@@ -1357,10 +1365,21 @@ def run_select(impl: Impl, path: str, with_schema: bool, dummy: bool):
         return 'ERR:OTHER:' + type(e).__name__
 
 
-def impl_records(impl: Impl) -> dict:
+def impl_records(impl: Impl, reuse=None, mode='ctx') -> dict:
     """type names, declarations, typed values of every element / attribute node, schema applied"""
     from elementpath.xpath_nodes import ElementNode
-    root, nt, ctx = impl.tree(True, as_doc=False)
+    if reuse is None:
+        root, nt, ctx = impl.tree(True, as_doc=False)
+    else:       # a NEW context over an EXISTING node tree (mode: 'ctx' | 'direct' | 'none')
+        root, nt = reuse
+        if mode == 'direct':        # apply_schema called on the typed tree, no clear_types() before
+            nt.apply_schema(impl.proxy)
+            ctx = None
+        else:
+            ctx = impl.XPathContext(nt, namespaces=impl.ctx_namespaces(),
+                                    schema=None if mode in ('none', 'keep') else impl.proxy)
+            if mode == 'none':
+                ctx.schema = None       # the setter's clearing branch (the constructor does not clear)
     eidx, aidx, idx_of, top = node_index_maps(root, nt)
     recs = {}
     nodes = {}
@@ -1400,7 +1419,7 @@ def impl_records(impl: Impl) -> dict:
             recs[key] = {'N': a.name, 'T': '~' if atn is None else atn, 'D': '0' if a.name in elem.attrib else '1',
                          'M': am, 'tv': atv, 'text': a.value}
             nodes[key] = (a, elem)
-    return {'recs': recs, 'nodes': nodes, 'ctx': ctx, 'nt': nt}
+    return {'recs': recs, 'nodes': nodes, 'ctx': ctx, 'nt': nt, 'root': root}
 
 
 def parse_answer(ans: str) -> dict:
@@ -1536,28 +1555,63 @@ def check_case(run: Run, case: dict, ans: str, impl: Impl) -> None:
                 if got != bitsS[ti] or got != (bitsM[ti] if bitsM != '~' else got):
                     dis(f'instance-of:{key}:{T}', got, model=bitsM[ti] if bitsM != '~' else None, spec=bitsS[ti],
                         tags=flags, site='_xpath2_operators.element/attribute kind test', extra={'expr': expr})
-            cls = sv[3:].split('=')[0]
-            if cls in INT_BOUNDS or cls in ('decimal', 'double'):
+            # named kind tests and the `T?` form (same answer as element(*, T) for a non-nilled node)
+            ti = run.rng.choice(sorted(picks))
+            T = BUILTINS[ti]
+            kt = 'element' if is_elem else 'attribute'
+            own = name_xpath(node.name)
+            for expr, want in ((f'$v instance of {kt}({own}, xs:{T})', bitsS[ti]),
+                               (f'$v instance of {kt}(t:nosuchname, xs:{T})', '0'),
+                               (f'count(self::{kt}({own}, xs:{T}))', bitsS[ti])) + \
+                    (((f'$v instance of element(*, xs:{T}?)', bitsS[ti]),) if is_elem else ()):
                 try:
-                    res = eval_on(impl, info, node, '$v + 1')
-                    exp = r['tv'] + 1
-                    ok = same_value(res, exp) or (isinstance(res, (int, Decimal)) and not isinstance(res, bool) and res == exp)
-                    got = repr(res)
+                    res = eval_on(impl, info, node, expr)
+                    got = '1' if res in (True, 1) and res is not False else '0' if res in (False, 0) else repr(res)
                 except Exception as e:
-                    ok, got, exp = False, impl_err(e), None
-                st.count('arithmetic:checked')
-                if not ok:
-                    dis(f'arithmetic:{key}', got, model=None, spec=repr(exp), tags=flags, site='arithmetic on typed node')
-            elif cls == 'boolean':
+                    got = impl_err(e)
+                st.count('kind-test:named/optional')
+                if got != want:
+                    dis(f'kind-test:{key}:{T}', got, model=bitsM[ti] if bitsM != '~' and 'nosuch' not in expr else want,
+                        spec=want, tags=flags, site='_xpath2_operators kind tests', extra={'expr': expr})
+        # nilled elements: element(*, T?) must hold exactly for the declared type and its base types
+        if valid and is_elem and nil and m.get('NS', '~') != '~' and run.rng.random() < max(case['iof_rate'], 0.5):
+            ti = run.rng.randrange(4, len(BUILTINS))
+            T = BUILTINS[ti]
+            for expr in (f'$v instance of element(*, xs:{T}?)', f'count(self::element(*, xs:{T}?))'):
                 try:
-                    res = eval_on(impl, info, node, '. = true()')
-                    ok = res is (sv == 'ok[boolean' + enc('true') + ']')
-                    got = repr(res)
+                    res = eval_on(impl, info, node, expr)
+                    got = '1' if res in (True, 1) and res is not False else '0'
                 except Exception as e:
-                    ok, got = False, impl_err(e)
-                st.count('comparison:checked')
-                if not ok:
-                    dis(f'comparison:{key}', got, model=None, spec=sv, tags=flags, site='comparison on typed node')
+                    got = impl_err(e)
+                st.count('kind-test:nilled')
+                if got != m['NS'][ti] or got != m['NM'][ti]:
+                    dis(f'kind-test-nilled:{key}:{T}', got, model=m['NM'][ti], spec=m['NS'][ti],
+                        tags=['F20n'] if m['NS'][ti] == '0' else [], site='_xpath2_operators.select__element_kind_test',
+                        extra={'expr': expr})
+        # operators on the typed node: `+` and `=` use the typed value (driver: OM / OS)
+        if valid and in_scope and not nil and m.get('OS', '-') != '-' and iv == mv and run.rng.random() < case['iof_rate']:
+            oS, oM = m['OS'].split(','), m['OM'].split(',') if m['OM'] != '-' else None
+            for k, expr in enumerate(('$v + 1', '$v = 7', '$v = true()', "$v = 'abc'")):
+                if oS[k] in ('n/a', '?') or (oM and oM[k] in ('n/a', '?')):
+                    st.count('operator:outside-fragment')
+                    continue
+                try:
+                    res = eval_on(impl, info, node, expr)
+                    if res is True or res is False:
+                        got = 'true' if res else 'false'
+                    elif isinstance(res, Decimal):
+                        got = 'decimal=' + canon_dec(res)
+                    elif isinstance(res, int):
+                        got = 'integer=' + str(int(res))
+                    else:
+                        got = repr(res)
+                except Exception as e:
+                    got = impl_err(e)
+                st.count('operator:checked')
+                st.count('operator:' + ('err' if oS[k] == 'err' else 'value'))
+                if got != oS[k] or (oM and got != oM[k]):
+                    dis(f'operator:{key}:{expr}', got, model=oM[k] if oM else None, spec=oS[k], tags=flags,
+                        site='arithmetic / comparison on a typed node', extra={'expr': expr})
     # ---- node selection with / without the schema ----------------------------------------------
     for k, (dummy, xp, _toks) in enumerate(case['paths']):
         m = A.get('p%d' % k)
@@ -1626,7 +1680,7 @@ def gen_case(rng, quick: bool) -> dict | None:
     # two fixed probes of the `*` branch
     paths.append((True, ('s', ('s', ('r',), 'ds', ('nd',), ('t',), ('t',), 'abbr'), 'c', ('*',), ('t',), ('t',))))   # //*
     paths.append((False, ('s', ('r',), 'c', ('*',), ('t',), ('t',))))                                             # /* on a document
-    return finish_case(sch, inst, paths, rng.choice(['lxml', 'lxml', 'etree']), 0.35)
+    return finish_case(sch, inst, paths, rng.choice(['lxml', 'lxml', 'etree']), 0.18)
 
 
 def compare(run: Run, cases: list[dict]) -> None:
@@ -1665,7 +1719,8 @@ def fixed_schema(version: str = '1.0') -> tuple[Schema, dict]:
     ulist = ('L', 'ulist', u)
     um = ('U', 'um', [myint, ('B', 'string')])
     mystr = ('R', 'mystr', ('B', 'token'), {'enum': ['a b', 'c'], 'min': None, 'max': None})
-    s.named_stypes += [ilist, myint, u, ulist, um, mystr]
+    lonly = ('U', 'lonly', [ilist])
+    s.named_stypes += [ilist, myint, u, ulist, um, mystr, lonly]
     s.ctypes.append({'name': 'ext', 'content': ('cs', ('B', 'int')), 'own_particles': [], 'base': None,
                      'own_attrs': [{'name': 'a', 'type': ('B', 'boolean'), 'default': None, 'required': False},
                                    {'name': 'dflt', 'type': ('B', 'int'), 'default': '7', 'required': False}]})
@@ -1676,7 +1731,7 @@ def fixed_schema(version: str = '1.0') -> tuple[Schema, dict]:
           ('PE', el('d', ('B', 'decimal'), default='5'), [], (0, None)), ('PE', el('f', ('B', 'double')), [], (0, None)),
           ('PE', el('s', ('B', 'string')), [], (0, 1)), ('PE', el('l', ilist), [], (0, 1)),
           ('PE', el('m', myint), [], (0, 1)), ('PE', el('u', u), [], (0, None)), ('PE', el('ul', ulist), [], (0, 1)),
-          ('PE', el('um', um), [], (0, None)), ('PE', el('ms', mystr), [], (0, 1)),
+          ('PE', el('um', um), [], (0, None)), ('PE', el('ms', mystr), [], (0, 1)), ('PE', el('lo', lonly), [], (0, 1)),
           ('PE', el('dd', ('B', 'date')), [], (0, None)), ('PE', el('dtm', ('B', 'dateTime')), [], (0, None)),
           ('PE', el('gy', ('B', 'gYear')), [], (0, None)), ('PE', el('gym', ('B', 'gYearMonth')), [], (0, None)),
           ('PE', {'name': 'e', 'ty': ('TC', 0), 'nillable': False, 'default': None}, [], (0, None))]
@@ -1693,7 +1748,7 @@ def fixed_schema(version: str = '1.0') -> tuple[Schema, dict]:
         nd('i', [' 42 ']), nd('i', [], [(XSI_NIL, 'true')]), nd('i', ['7'], [(XSI_NIL, 'false')]),
         nd('d', ['1.50']), nd('d', []), nd('f', ['1e3']), nd('f', ['NaN']), nd('s', [' x ']), nd('l', ['1 2 3']),
         nd('m', ['5']), nd('u', ['7']), nd('u', ['true']), nd('u', ['zz']), nd('ul', ['1 true zz']),
-        nd('um', ['7']), nd('um', ['x']), nd('ms', [' a   b ']),
+        nd('um', ['7']), nd('um', ['x']), nd('ms', [' a   b ']), nd('lo', ['1 2']),
         nd('dd', ['-0001-01-01']), nd('dd', ['12345-06-07Z']), nd('dtm', ['-0044-03-15T12:00:00Z']),
         nd('gy', ['-0044']), nd('gym', ['-0044-03']),
     ] + ([nd('dd', ['0000-02-29']), nd('dtm', ['0000-01-01T00:00:00']), nd('gy', ['0000']), nd('gym', ['0000-05'])]
@@ -1738,7 +1793,7 @@ def corpus_cases() -> list[dict]:
 
 def correspond(run: Run) -> None:
     rng = run.rng
-    n = run.scale(1300, 12000)
+    n = run.scale(1100, 9000)
     run.stats.rule = (
         'one case = (generated schema over 21 builtin atomic types with restrictions, lists, unions, '
         'simple-content extensions, nillable, defaults, xsi:type, substitution groups, wildcards; XSD 1.0 or 1.1) '
@@ -1840,6 +1895,38 @@ def translate(run: Run) -> dict:
 # ======================================================================================
 # proxy-lifecycle histories: ONE proxy object over several evaluations
 # ======================================================================================
+def reuse_snapshots(impl: Impl, fresh_proxy) -> list:
+    """ONE node tree through a sequence of (re)applications; returns [(label, records, expect_typed)]"""
+    CUR_VERSION[0] = impl.case['version']
+    out = []
+    strip = lambda i: {k: {f: v[f] for f in v if f in ('T', 'E', 'M', 'N', 'D')} for k, v in i['recs'].items()}
+    try:
+        info = impl_records(impl)
+        tree = (info['root'], info['nt'])
+        other = Impl(impl.case, xs=impl.xs, proxy=fresh_proxy)
+        out.append(('context(proxy)', strip(info), True))
+        out.append(('context(same proxy) again', strip(impl_records(impl, reuse=tree)), True))
+        out.append(('apply_schema(same proxy) directly', strip(impl_records(impl, reuse=tree, mode='direct')), True))
+        out.append(('apply_schema(another proxy) directly, attributes already built',
+                    strip(impl_records(other, reuse=tree, mode='direct')), True))
+        out.append(('schema-less context (constructor): types persist on the node tree',
+                    strip(impl_records(impl, reuse=tree, mode='keep')), True))
+        out.append(('context.schema = None', strip(impl_records(impl, reuse=tree, mode='none')), False))
+        out.append(('context(first proxy) after clearing', strip(impl_records(impl, reuse=tree)), True))
+        out.append(('context(another proxy)', strip(impl_records(other, reuse=tree)), True))
+    except Exception as e:
+        out.append(('crash', {'crash': impl_err(e)}, True))
+    return out
+
+
+def plain_snapshot(impl: Impl) -> dict:
+    """the records of a fresh tree evaluated WITHOUT schema"""
+    root = impl.parse_xml()
+    nt = impl.get_node_tree(root, namespaces=impl.ctx_namespaces())
+    info = impl_records(impl, reuse=(root, nt), mode='none')
+    return {k: {f: v[f] for f in v if f in ('T', 'E', 'M', 'N', 'D')} for k, v in info['recs'].items()}
+
+
 def snapshot(impl: Impl, paths: list) -> dict:
     """what one evaluation through impl.proxy observes: every node's type name / declaration flag /
     typed value, and the selections of the paths (schema-bound parser)"""
@@ -1923,6 +2010,21 @@ def history_case(run: Run, rng) -> None:
             run.disagree(Disagreement(dict(cid, node=diff), impl=json_s(got.get('recs', {}).get(diff, got.get('sel'))),
                                       model=None, spec=json_s(want.get('recs', {}).get(diff, want.get('sel'))),
                                       what='proxy-history', site='schema_proxy.AbstractSchemaProxy (state kept across evaluations)'))
+        if kind == 'built' and rng.random() < 0.6:
+            snaps = reuse_snapshots(Impl(case, xs=xs, proxy=proxy), XMLSchemaProxy(xs))
+            st.count('history:tree-reuse')
+            try:
+                plain = plain_snapshot(Impl(case, xs=xs, proxy=proxy))
+            except Exception as e:
+                plain = {'crash': impl_err(e)}
+            for label, sn, typed in snaps:
+                expect = want.get('recs') if typed else plain
+                if sn != expect:
+                    diff = next((key for key in (expect or {}) if sn.get(key) != expect[key]), 'crash')
+                    run.disagree(Disagreement(dict(cid, node=diff, history=hist_log + ['on ONE node tree: ' + label]),
+                                              impl=json_s(sn.get(diff)), model=None, spec=json_s((expect or {}).get(diff)),
+                                              what='tree-reuse', site='xpath_context.schema setter / apply_schema early return'))
+                    break
         if kind == 'unbuilt':
             # the Lean model of the not-fully-valid branch
             line = 'SU' + case['line'][1:].split(' Q ')[0] + ' Q 0'
@@ -1979,7 +2081,7 @@ def body(run: Run) -> int:
     run.prove(['EPV.Props.C20', 'EPV.Props.C20Tables'], extra_modules=[])
     try:
         correspond(run)
-        histories(run, run.scale(60, 600))
+        histories(run, run.scale(50, 500))
     except DriverError as e:
         run.broken.append('driver:C20 ' + str(e)[:300])
     return run.finish('proof', shrink=shrink, search=search)
